@@ -23,12 +23,12 @@ const (
 
 // DocCfg bounds a symbolic document.
 type DocCfg struct {
-	Depth   int      // container nesting levels available below the root
-	MaxLen  int      // arrays have 0..MaxLen elements
-	Keys    []string // key alphabet of objects
-	Scalars uint32   // allowed scalar kinds (KNil|KBool|KFloat|KString|KNumber|opaque bits)
-	RootKinds uint32 // optional: restrict the root's kinds (0 = no restriction)
-	MinLen  int
+	Depth     int      // container nesting levels available below the root
+	MaxLen    int      // arrays have 0..MaxLen elements
+	Keys      []string // key alphabet of objects
+	Scalars   uint32   // allowed scalar kinds (KNil|KBool|KFloat|KString|KNumber|opaque bits)
+	RootKinds uint32   // optional: restrict the root's kinds (0 = no restriction)
+	MinLen    int
 	// Optional per-level narrowing, indexed by the node's remaining depth
 	// (index 1 = deepest containers). Missing entries fall back to Keys/MaxLen.
 	KeysAt   map[int][]string
